@@ -32,6 +32,24 @@ mod helpers {
     impl PartialOrd for WN<3> { fn partial_cmp(&self, _: &Self) -> Option<Ordering> { Some(Ordering::Equal) } }
     impl Ord for WN<3> { fn cmp(&self, _: &Self) -> Ordering { Ordering::Equal } }
     impl Hash for WN<3> { fn hash<H: Hasher>(&self, _: &mut H) {} }
+    /// a type with a lifetime parameter that supports every operator in every reference form
+    #[derive(Clone, Copy, Debug, Default, PartialEq, Eq, PartialOrd, Ord, Hash)]
+    pub struct LM<'a>(pub i8, pub ::core::marker::PhantomData<&'a ()>);
+    macro_rules! lm_ops { ($($tr:ident $f:ident $tra:ident $fa:ident),*) => {$(
+        impl<'a> ::core::ops::$tr<LM<'a>> for LM<'a> { type Output = LM<'a>; fn $f(self, _: LM<'a>) -> LM<'a> { self } }
+        impl<'a, 'b> ::core::ops::$tr<&'b LM<'a>> for LM<'a> { type Output = LM<'a>; fn $f(self, _: &'b LM<'a>) -> LM<'a> { self } }
+        impl<'a, 'b> ::core::ops::$tr<LM<'a>> for &'b LM<'a> { type Output = LM<'a>; fn $f(self, _: LM<'a>) -> LM<'a> { *self } }
+        impl<'a, 'b, 'c> ::core::ops::$tr<&'c LM<'a>> for &'b LM<'a> { type Output = LM<'a>; fn $f(self, _: &'c LM<'a>) -> LM<'a> { *self } }
+        impl<'a> ::core::ops::$tra<LM<'a>> for LM<'a> { fn $fa(&mut self, _: LM<'a>) {} }
+        impl<'a, 'b> ::core::ops::$tra<&'b LM<'a>> for LM<'a> { fn $fa(&mut self, _: &'b LM<'a>) {} }
+    )*}}
+    lm_ops!(Add add AddAssign add_assign, BitAnd bitand BitAndAssign bitand_assign, BitOr bitor BitOrAssign bitor_assign,
+            BitXor bitxor BitXorAssign bitxor_assign, Div div DivAssign div_assign, Mul mul MulAssign mul_assign,
+            Rem rem RemAssign rem_assign, Shl shl ShlAssign shl_assign, Shr shr ShrAssign shr_assign, Sub sub SubAssign sub_assign);
+    impl<'a> ::core::ops::Neg for LM<'a> { type Output = LM<'a>; fn neg(self) -> LM<'a> { self } }
+    impl<'a, 'b> ::core::ops::Neg for &'b LM<'a> { type Output = LM<'a>; fn neg(self) -> LM<'a> { *self } }
+    impl<'a> ::core::ops::Not for LM<'a> { type Output = LM<'a>; fn not(self) -> LM<'a> { self } }
+    impl<'a, 'b> ::core::ops::Not for &'b LM<'a> { type Output = LM<'a>; fn not(self) -> LM<'a> { *self } }
 }
 '''
 
@@ -139,6 +157,8 @@ def gen_item(rng, names=None, want_enum=None, allow_attrs=True, plain=False, abs
                 c += [T, T]
             if has_U:
                 c += [U]
+            if has_lt:
+                c += [f'helpers::LM<{LT}>', f'helpers::LM<{LT}>']
             return c
         c += ['(i8, bool)', f'{OPT}<i8>']
         if not copy:
